@@ -77,6 +77,8 @@ def instr : P Instr := do
   | 27 => do let o ← nat; let i ← int; pure (.opbGetItem o i)
   | 28 => do let o ← nat; let i ← int; pure (.opbIterItem o i)
   | 29 => do let c ← nat; let i ← nat; let a ← int; let b ← int; pure (.pbcSet c i a b)
+  | 30 => do let g ← nat; pure (.normBip g)
+  | 31 => do let g ← nat; let u ← int; let v ← int; pure (.bipAddEdge g u v)
   | _ => failure
 
 def fmtStr := Cnfgen.Driver.Shuffle.fmtStr
@@ -110,7 +112,7 @@ def fmtReg (s : Store) : Option Nat → String
       "L " ++ toString as.length ++ as.foldl (fun acc x =>
         acc ++ " [" ++ (match readInts s x with | some xs => fmtIntList xs | none => "?") ++ "]") ""
     | some (.view _ _) => "V " ++ (match viewLen s a with | some n => toString n | none => "?")
-    | some (.bipg _) => "G"
+    | some (.bipg B) => "G " ++ toString B.l ++ " " ++ toString B.r ++ " " ++ fmtPairs B.edges
     | some (.pbc c) => "C " ++ fmtPBC c
     | _ => "?"
 
